@@ -129,22 +129,52 @@ func run(scratch string) int {
 		return 2
 	}
 	r := report.New(id, tier, seed)
-	c := &checks.Ctx{TB: tb, R: r, Tier: tier, Seed: seed, Scratch: scratch}
 	values.DefaultCombos = 4
+	passes := 1
 	if tier == "thorough" {
 		values.DefaultCombos = 32
+		// the thorough tier enumerates the whole catalogue under several concretisations (names,
+		// field numbers, random members of value classes): pass 0 uses the seed itself
+		passes = 3
 	}
-	func() {
-		defer func() {
-			if p := recover(); p != nil {
-				r.Harness(fmt.Sprintf("driver panic: %v", p))
-				if os.Getenv("VERIF_DEBUG") != "" {
-					panic(p)
-				}
+	if v, err := strconv.Atoi(os.Getenv("VERIF_PASSES")); err == nil && v > 0 {
+		passes = v
+	}
+	var pluginRuns int64
+	var passSeeds []int64
+	for k := 0; k < passes; k++ {
+		ps := seed
+		ptb, pscratch := tb, scratch
+		if k > 0 {
+			ps = seed*7907 + int64(k)*104729
+			pscratch = fmt.Sprintf("%s/pass-%d", scratch, k)
+			var err error
+			if ptb, err = tb.Sub(pscratch); err != nil {
+				fmt.Println("HARNESS-ERROR", err)
+				return 2
 			}
+		}
+		passSeeds = append(passSeeds, ps)
+		r.PassSeed = ps
+		c := &checks.Ctx{TB: ptb, R: r, Tier: tier, Seed: ps, Scratch: pscratch, Full: checks.FullInQuick[id]}
+		func() {
+			defer func() {
+				if p := recover(); p != nil {
+					r.Harness(fmt.Sprintf("driver panic: %v", p))
+					if os.Getenv("VERIF_DEBUG") != "" {
+						panic(p)
+					}
+				}
+			}()
+			fn(c)
 		}()
-		fn(c)
-	}()
-	r.Set("plugin_runs", tb.Runs.Load())
+		pluginRuns += ptb.Runs.Load()
+		if k > 0 && os.Getenv("VERIF_KEEP") == "" {
+			_ = os.RemoveAll(pscratch)
+		}
+	}
+	r.Set("plugin_runs", pluginRuns)
+	r.Set("passes", passes)
+	r.Set("pass_seeds", passSeeds)
 	return r.Finish()
 }
